@@ -150,3 +150,21 @@ def fde_leaf(I, B, off, name):
     """member `name` of the fixed .debug_frame FDE header (Dwarf_FDE_header: length, CIE_pointer, initial_location,
     address_range; tied to 6.4.1 by its K2 obligation) whose initial length starts at off"""
     return z3.Function('Dwarf_FDE_header.%s' % name, ArrS, IntS, IntS)(B.arr, to_int(off))
+
+
+@_native
+def cie_leaf(I, B, off, eh, name):
+    """member `name` of the CIE header (6.4.1 / LSB 10.6.1.1; K2 ties the construct to the layout) starting at off"""
+    from pyvc.vals import to_bool
+    a = z3.Function('EH_CIE_header.%s' % name, ArrS, IntS, IntS)(B.arr, to_int(off))
+    b = z3.Function('Dwarf_CIE_header.%s' % name, ArrS, IntS, IntS)(B.arr, to_int(off))
+    e = to_bool(eh)
+    if isinstance(e, bool):
+        return a if e else b
+    return z3.If(e, a, b)
+
+
+@_native
+def cls_is(I, obj, name):
+    """the object is an instance of exactly the named class"""
+    return getattr(obj, 'cls', None) == name
